@@ -72,7 +72,7 @@ theorem skipLoop_mono_le (t : Bytes) {f f' : Nat} (hle : f ≤ f') {inC : Bool} 
 /-- the comment loop walks from `p` to the terminator `-->` at offset `m` and hands over to the outer loop -/
 theorem comment_walk (t : Bytes) (lo m : Nat) (hm : m + 3 ≤ t.length)
     (h1 : t.getD m 0 = 45) (h2 : t.getD (m + 1) 0 = 45) (h3 : t.getD (m + 2) 0 = 62)
-    (hbody : ∀ i, lo ≤ i → i < m → t.getD i 0 = 45 → t.getD (i + 1) 0 ≠ 45) :
+    (hbody : ∀ i, lo ≤ i → i < m → ¬(t.getD i 0 = 45 ∧ t.getD (i + 1) 0 = 45 ∧ t.getD (i + 2) 0 = 62)) :
     ∀ (n : Nat) (p : Pos) (ce : Option Pos), lo ≤ p.pos → p.pos ≤ m → m - p.pos ≤ n →
       ∃ q : Pos, q.pos = m + 3 ∧ (PosOK t p → PosOK t q) ∧
         ∀ r, (∃ f, skipLoop t f false q (some q) = .ok r) → ∃ f, skipLoop t f true p ce = .ok r := by
@@ -193,7 +193,7 @@ theorem comment_walk (t : Bytes) (lo m : Nat) (hm : m + 3 ≤ t.length)
         exact hf
       · -- a single `-`
         have h45 := commentStop_true hstop h13 h10
-        have hnext := hbody (p.pos + k) (by omega) hlt h45
+        have hnext := hbody (p.pos + k) (by omega) hlt
         obtain ⟨q, hq1, hq2, hq3⟩ := ih (m - (p.pos + k + 1)) (by omega) ⟨p.line, p.pos + k + 1, p.ls⟩ ce
           (by simp; omega) (by simp; omega) (by simp)
         refine ⟨q, hq1, fun hp => hq2 ((hadv hp).adv1 hltl h13 h10), ?_⟩
@@ -204,7 +204,7 @@ theorem comment_walk (t : Bytes) (lo m : Nat) (hm : m + 3 ≤ t.length)
         rw [if_neg h13, if_neg h10, cstr_le (by omega)]; simp only [Res.ok_bind]
         have : ¬ (t.drop (p.pos + k + 1)).take 2 = [45, 62] := by
           intro e
-          exact hnext (take2_bytes e).1
+          exact hnext ⟨h45, (take2_bytes e).1, by simpa [Nat.add_assoc] using (take2_bytes e).2⟩
         rw [if_neg this]
         exact hf
 
@@ -224,15 +224,20 @@ theorem skipSpace_comment (t : Bytes) (p : Pos) (body rest : Bytes)
   obtain ⟨hmlt, m0, hdm1⟩ := drop_cons hdm
   obtain ⟨_, m1, hdm2⟩ := drop_cons hdm1
   obtain ⟨hm2lt, m2, _⟩ := drop_cons hdm2
-  have hd4'' : t.drop (p.pos + 4) = (body ++ [45]) ++ (45 :: 62 :: rest) := by rw [hd4']; simp
-  have hbody : ∀ i, p.pos + 4 ≤ i → i < p.pos + 4 + body.length → t.getD i 0 = 45 → t.getD (i + 1) 0 ≠ 45 := by
-    intro i hi1 hi2 hi45
-    have e1 := drop_getD hd4' (show i - (p.pos + 4) < body.length by omega)
-    rw [show p.pos + 4 + (i - (p.pos + 4)) = i by omega] at e1
-    have e2 := drop_getD hd4'' (show i - (p.pos + 4) + 1 < (body ++ [45]).length by simp; omega)
-    rw [show p.pos + 4 + (i - (p.pos + 4) + 1) = i + 1 by omega] at e2
-    rw [e2]
-    exact hb _ (by omega) (by rw [← e1]; exact hi45)
+  have hd4'' : t.drop (p.pos + 4) = (body ++ [45, 45]) ++ (62 :: rest) := by rw [hd4']; simp
+  have hbody : ∀ i, p.pos + 4 ≤ i → i < p.pos + 4 + body.length →
+      ¬(t.getD i 0 = 45 ∧ t.getD (i + 1) 0 = 45 ∧ t.getD (i + 2) 0 = 62) := by
+    intro i hi1 hi2
+    have e0 := drop_getD hd4'' (show i - (p.pos + 4) < (body ++ [45, 45]).length by simp; omega)
+    rw [show p.pos + 4 + (i - (p.pos + 4)) = i by omega] at e0
+    have e1 := drop_getD hd4'' (show i - (p.pos + 4) + 1 < (body ++ [45, 45]).length by simp; omega)
+    rw [show p.pos + 4 + (i - (p.pos + 4) + 1) = i + 1 by omega] at e1
+    have hget : t.getD (i + 2) 0 = (body ++ [45, 45]).getD (i - (p.pos + 4) + 2) 0 := by
+      have e2 := drop_getD hd4'' (show i - (p.pos + 4) + 2 < (body ++ [45, 45]).length by simp; omega)
+      rw [show p.pos + 4 + (i - (p.pos + 4) + 2) = i + 2 by omega] at e2
+      exact e2
+    rw [e0, e1, hget]
+    exact hb _ (by omega)
   obtain ⟨q, hq1, hq2, hq3⟩ := comment_walk t (p.pos + 4) (p.pos + 4 + body.length) (by omega) m0 m1
     (by simpa [Nat.add_assoc] using m2) hbody (body.length) ⟨p.line, p.pos + 4, p.ls⟩ none
     (by simp) (by simp) (by simp)
